@@ -688,7 +688,8 @@ fn doc_to_tokens(is_module_doc: bool, doc: Option<&str>) -> proc_macro2::TokenSt
     let Some(doc) = doc else {
         return proc_macro2::TokenStream::new();
     };
-    let doc_attrs = doc.lines().map(|line| {
+    // `split` rather than `lines`: a trailing empty doc line is a line too
+    let doc_attrs = doc.split('\n').map(|line| {
         if is_module_doc {
             quote! { #![doc = #line] }
         } else {
